@@ -350,6 +350,47 @@ def linear_task(task):
         s.cleanup()
 
 
+def wide_task(n):
+    """Runs over n targets (no checkpoint: every target is covered), so that the result document is far
+    larger than any buffer (about 100 bytes per target): result show must still return exactly what the
+    run printed, log show the three logs that exist, and retention must hold."""
+    s = sc.Scratch("c12wide")
+    try:
+        ts = [{"path": "w/t%04d" % i} for i in range(n)]
+        r = sc.Repo(s, "r", ts, commands={t["path"]: {"build": "x"} for t in ts}, max_retained_runs=2, init_git=False)
+        viol = []
+        trans = 0
+        for k in range(3):
+            want = []
+            for i in (0, n // 2, n - 1):
+                body = ("run %d output of %s\n" % (k, ts[i]["path"])).encode()
+                r.set_script(ts[i]["path"], "build", ["out " + body.hex(), "exit 0"])
+                want.append(("stdout.zst", ts[i]["path"], "build", body))
+            res = r.mr("run", "-c", "build", env=r.trace_env(), timeout=300)
+            doc = res.json()
+            trans += 1
+            if res.code != 0 or doc is None:
+                viol.append(("run-did-not-complete", "run %d over %d targets: exit %s %s" % (k + 1, n, res.code, res.err[:200])))
+                break
+            rs = r.mr("result", "show")
+            if canon_result(rs.json()) != canon_result(doc):
+                viol.append(("result-show-differs", "run %d over %d targets (document of %d bytes): result show exit %s, %d bytes" % (k + 1, n, len(res.out), rs.code, len(rs.out))))
+            ls = r.mr("log", "show", "--stdout", "--stderr")
+            if ls.code != 0 or parse_log_show(ls.out) != sorted(want):
+                viol.append(("log-show-differs", "run %d over %d targets: log show exit %s, %d blocks" % (k + 1, n, ls.code, len(parse_log_show(ls.out)))))
+            rd = os.path.join(r.out_dir(), "run")
+            if len(os.listdir(rd)) > 2:
+                viol.append(("too-many-run-directories", "%d run directories with max_retained_runs=2" % len(os.listdir(rd))))
+        return {"transitions": trans, "obs": [],
+                "violations": [{"sig": sig, "detail": d, "rank": 200000 + n, "case": {"wide": n}} for sig, d in viol]}
+    except common.EngineError as e:
+        return {"engine_error": str(e)}
+    except Exception:
+        return {"engine_error": traceback.format_exc()[-1500:]}
+    finally:
+        s.cleanup()
+
+
 def linear_cases(tier):
     pats = [(0, 1, 2, 3), (2,), (0,)]
     out = [(m, p, 2 * (m or 10) + 3) for m in (10, None, 11) for p in pats]
@@ -413,7 +454,7 @@ def run(prop, tier):
                 if len(seen) > 2:
                     agg["samples"].append({"max_retained_runs": maxr, "out_dir": odir, "history": [RUNS[h]["name"] for h in list(seen.values())[-1]]})
         lin = linear_cases(tier)
-        lres = common.pmap(linear_task, lin)
+        lres = common.pmap(linear_task, lin) + common.pmap(wide_task, [700] if tier == "quick" else [700, 1500])
         errs = [r["engine_error"] for r in lres if "engine_error" in r]
         if errs:
             raise common.EngineError("; ".join(errs[:2]))
@@ -429,7 +470,7 @@ def run(prop, tier):
     agg["evaluations"] = agg["transitions"]
     agg["distinct_nontrivial"] = agg["states"]
     agg["exhaustive"] = all(f["converged"] for f in agg["fixpoint"].values())
-    agg["rule"] = "BFS to fixpoint over run histories for max_retained_runs in %s (plus, for max 2, a depth-bounded search whose alphabet also contains a run that aborts with a fatal error during execution); alphabet of completing runs: %s; state = actual disk content of <out>/tracking/run.json and <out>/run/** (decoded, timestamps and run times dropped); plus %d single long histories (not a fixpoint search) for max_retained_runs in 9..12/20/99..101/default that cross the wrap of the slot counter from a multi-digit id to 1 at least once; after every transition: result show == the document that run printed, log show == exactly that run's logs, log show --id <slot> for each retained run, number of run directories <= max" % (maxes, [r["name"] for r in RUNS], len(lin))
+    agg["rule"] = "BFS to fixpoint over run histories for max_retained_runs in %s (plus, for max 2, a depth-bounded search whose alphabet also contains a run that aborts with a fatal error during execution); alphabet of completing runs: %s; state = actual disk content of <out>/tracking/run.json and <out>/run/** (decoded, timestamps and run times dropped); plus %d single long histories (not a fixpoint search) for max_retained_runs in 9..12/20/99..101/default that cross the wrap of the slot counter from a multi-digit id to 1 at least once; plus three runs over 700 targets (thorough also 1500) whose result document is far larger than 64 KiB; after every transition: result show == the document that run printed, log show == exactly that run's logs, log show --id <slot> for each retained run, number of run directories <= max" % (maxes, [r["name"] for r in RUNS], len(lin))
     by = {}
     for v in agg["violations"]:
         by[v["sig"]] = by.get(v["sig"], 0) + 1
@@ -443,6 +484,18 @@ def run(prop, tier):
 def replay(prop, path):
     body = json.load(open(path))
     case = body["case"]
+    if "wide" in case:
+        r = wide_task(case["wide"])
+        if "engine_error" in r:
+            print("ENGINE:", r["engine_error"])
+            return 2
+        for v in r["violations"]:
+            print("REPLAY property=%s still violates: [%s] %s" % (prop, v["sig"], v["detail"][:300]))
+        if r["violations"]:
+            print("VIOLATION property=%s replay=%s" % (prop, path))
+            return 1
+        print("REPLAY property=%s: case passes on the current tree" % prop)
+        return 0
     if "linear" in case:
         m, p, n = case["linear"][:3]
         r = linear_task((m, tuple(p), n) + tuple(case["linear"][3:]))
